@@ -203,7 +203,6 @@ pub fn case_from_json(v: &Value) -> Case {
     Case { desc: v["desc"].as_str().unwrap_or("").to_string(), doc, expect, child: v["child"].as_bool().unwrap_or(false) }
 }
 
-// FAMILIES_BELOW
 
 // ---------------------------------------------------------------------------------------------------------
 // well-formed trees: strings over 'p' (page leaf) and '(' ... ')' (intermediate node); the string is the
@@ -335,7 +334,6 @@ fn wf_case(s: &str, layout: usize, mode: usize, via_file: bool) -> Case {
     Case { desc, doc, expect: Some(expect), child: false }
 }
 
-// FAMILIES2_BELOW
 
 // ---------------------------------------------------------------------------------------------------------
 // deep and wide well-formed trees
@@ -555,7 +553,6 @@ fn big_counts_case(s: &str, big: usize, target: usize) -> Case {
            doc, expect: None, child: true }
 }
 
-// RUNNER_BELOW
 
 // ---------------------------------------------------------------------------------------------------------
 // families
@@ -565,11 +562,11 @@ pub struct Fam { name: &'static str, count: u64, make: Box<dyn Fn(u64) -> Case +
 struct Bounds { wf_n: usize, file_n: usize, deep: Vec<usize>, fan: Vec<usize>, graphs: Vec<GraphFam>, kinds_triples_all_roots: bool, counts_n: usize, big_trees: Vec<&'static str> }
 fn bounds(thorough: bool) -> Bounds {
     if thorough {
-        Bounds { wf_n: 9, file_n: 6, deep: (0..=300).chain([1000]).collect(), fan: (0..=40).chain([64, 255, 256, 257, 1000]).collect(),
+        Bounds { wf_n: 9, file_n: 5, deep: (0..=300).chain([1000]).collect(), fan: (0..=40).chain([64, 255, 256, 257, 1000]).collect(),
                  graphs: vec![GraphFam { slots: 2, root_len: 3, node_len: 3 }, GraphFam { slots: 3, root_len: 2, node_len: 2 }], kinds_triples_all_roots: true, counts_n: 5,
                  big_trees: vec!["p", "(p)", "p(p)", "(p)p", "p(p)(p)", "p(p)(p)(p)", "pp((p)p)", "()p"] }
     } else {
-        Bounds { wf_n: 7, file_n: 5, deep: (0..=12).chain([31, 32, 33, 34, 64, 128]).chain(253..=259).chain([300]).collect(), fan: (0..=12).chain([31, 32, 33, 64, 256, 1000]).collect(),
+        Bounds { wf_n: 7, file_n: 4, deep: (0..=12).chain([31, 32, 33, 34, 64, 128]).chain(253..=259).chain([300]).collect(), fan: (0..=12).chain([31, 32, 33, 64, 256, 1000]).collect(),
                  graphs: vec![GraphFam { slots: 2, root_len: 3, node_len: 2 }], kinds_triples_all_roots: false, counts_n: 4,
                  big_trees: vec!["(p)", "p(p)", "p(p)(p)(p)"] }
     }
@@ -636,7 +633,7 @@ fn bound_string(thorough: bool) -> String {
 (8) huge Count (2^31, 10^10, 5*10^17, i64::MAX, i64::MAX behind a reference) on {} small trees, each in a child process. \
 Malformed families (5)-(8) and beyond-limit depths: terminates (item cap {} and {} s watchdog), yields only page objects that occur in a Kids array under the root, numbers 1..n, no panic, no abort.",
         b.wf_n, b.file_n, if thorough { "0..=300 and 1000".to_string() } else { format!("{:?}", b.deep) }, if thorough { "0..=40, 64, 255, 256, 257, 1000".to_string() } else { format!("{:?}", b.fan) },
-        g.join("; "), if b.kinds_triples_all_roots { "triple" } else { "triple" }, KINDS, if b.kinds_triples_all_roots { "all 13" } else { "the normal" }, b.counts_n, b.big_trees.len(), ITEM_CAP, HANG_MS / 1000)
+        g.join("; "), "triple", KINDS, if b.kinds_triples_all_roots { "all 13" } else { "the normal" }, b.counts_n, b.big_trees.len(), ITEM_CAP, HANG_MS / 1000)
 }
 
 // ---------------------------------------------------------------------------------------------------------
@@ -775,6 +772,7 @@ pub fn run(thorough: bool) -> Report {
             acc
         };
         let acc = (0..fam.count).into_par_iter().fold(Acc::default, one).reduce(Acc::default, Acc::merge);
+        if std::env::var("C12_TIMING").is_ok() { eprintln!("c12 family {} ({} cases): done at {:?}", fam.name, fam.count, watch.t0.elapsed()); }
         rep.evaluations += acc.evals;
         rep.nontrivial += acc.nontrivial;
         for (_, f) in acc.fails {
